@@ -223,6 +223,74 @@ theorem C34_mode (fields : List Field) (ex : List Path) (n : Nat) (r : Collected
       obtain ⟨a1, _, a3, _, _⟩ := g.fresh hl p hp
       exact ⟨a1, fun h0 => a3 (hsub p h0), fun hq hps => a3 (hsub p (hq p hps))⟩
 
+/-- **C34 staging gate.**  `Job.inputs` stages a field iff `contains_type(FileSet, fld.type)`; that test is true iff
+    SOME leaf of the declared type — at any position of a tuple, at any depth of lists, dict keys/values, unions and
+    optionals — is a FileSet class.  (A check of the first type argument only would miss `tuple[int, File]`:
+    see the example below.) -/
+theorem C34_gate (f : Field) : f.typed = true ↔ ∃ n, n ∈ f.ty.fileLeaves := containsType_iff f.ty
+
+include hP in
+/-- **C34 every reachable file is staged per the copy mode.**  If the declared type of a field mentions a FileSet class
+    anywhere and the value is truthy, then EVERY file leaf of the value, wherever it sits, is replaced by the result of a
+    `FileSet.copy` call made for its (class, paths) with an operation among `copy_mode & reduced supported modes`; for
+    `copy_mode=copy` that is a real copy inside the job directory (never the original object). -/
+theorem C34_every_file_staged (fields : List Field) (ex : List Path) (n : Nat) (r : Collected)
+    (h : stageInputs P get tbl jobDir sup fields ex n = .ok r) :
+    PerField (fun f b m => (∃ n, n ∈ f.ty.fileLeaves) → f.truthy = true →
+        b.2 = mapVal (resolve m) f.value ∧
+        ∀ x ∈ leaves f.value, ∃ e ∈ m, e.key = x.key ∧ e.dst = resolve m x
+          ∧ (f.mode.and (reduceSupported get tbl jobDir e.src.paths sup)).has e.op = true
+          ∧ (f.mode = Mode.copyOnly → e.op = .copy ∧ ∀ p ∈ (resolve m x).paths, Under jobDir p ∧ p ∉ ex))
+      fields r.fields r.memos := by
+  have M := C34_memo hP get tbl jobDir sup fields ex n r h
+  have D := C34_mode hP get tbl jobDir sup fields ex n r h
+  have aux : ∀ (as : List Field) (bs : List (Str × Val)) (ms : List (List Entry)),
+      PerField (fun f b m => (f.truthy && f.typed) = true →
+        b.2 = mapVal (resolve m) f.value
+        ∧ m.Pairwise (fun e e' => e.key ≠ e'.key)
+        ∧ (∀ e ∈ m, e.src ∈ leaves f.value ∧ e.key = e.src.key)
+        ∧ (∀ x ∈ leaves f.value, ∃ e ∈ m, e.key = x.key ∧ e.dst = resolve m x)) as bs ms →
+      PerField (fun f _ m => ∀ e ∈ m,
+        (f.mode.and (reduceSupported get tbl jobDir e.src.paths sup)).has e.op = true
+        ∧ (e.src.paths.any (fun p => Mount.onCifs get tbl p) = true → e.op ≠ .sym)
+        ∧ (e.src.paths.all (fun p => Mount.onSameMount get tbl p jobDir) = false → e.op ≠ .hard)
+        ∧ (f.mode = Mode.copyOnly → e.op = .copy)
+        ∧ (e.op = .leave → e.dst = e.src)
+        ∧ (e.op ≠ .leave → ∀ p ∈ e.dst.paths, Under jobDir p ∧ p ∉ ex ∧ ((∀ q ∈ e.src.paths, q ∈ ex) → p ∉ e.src.paths))
+        ∧ e.dst.content = e.src.content ∧ e.dst.cls = e.src.cls ∧ Copied e.src e.dst e.op) as bs ms →
+      PerField (fun f b m => (∃ n, n ∈ f.ty.fileLeaves) → f.truthy = true →
+        b.2 = mapVal (resolve m) f.value ∧
+        ∀ x ∈ leaves f.value, ∃ e ∈ m, e.key = x.key ∧ e.dst = resolve m x
+          ∧ (f.mode.and (reduceSupported get tbl jobDir e.src.paths sup)).has e.op = true
+          ∧ (f.mode = Mode.copyOnly → e.op = .copy ∧ ∀ p ∈ (resolve m x).paths, Under jobDir p ∧ p ∉ ex)) as bs ms := by
+    intro as
+    induction as with
+    | nil => intro bs ms h1 _; cases bs <;> cases ms <;> simp_all [PerField]
+    | cons a as ih =>
+      intro bs ms h1 h2
+      cases bs with
+      | nil => simp [PerField] at h1
+      | cons b bs =>
+        cases ms with
+        | nil => simp [PerField] at h1
+        | cons m ms =>
+          simp only [PerField] at h1 h2 ⊢
+          refine ⟨?_, ih bs ms h1.2 h2.2⟩
+          intro hg ht
+          have hc : (a.truthy && a.typed) = true := by
+            rw [ht, (C34_gate a).mpr hg]; rfl
+          obtain ⟨m1, _, _, m4⟩ := h1.1 hc
+          refine ⟨m1, fun x hx => ?_⟩
+          obtain ⟨e, he, hk, hd⟩ := m4 x hx
+          obtain ⟨d1, _, _, d4, _, d6, _⟩ := h2.1 e he
+          refine ⟨e, he, hk, hd, d1, fun hm => ?_⟩
+          have hop := d4 hm
+          refine ⟨hop, fun p hp => ?_⟩
+          rw [← hd] at hp
+          have := d6 (by rw [hop]; decide) p hp
+          exact ⟨this.1, this.2.1⟩
+  exact aux _ _ _ M D
+
 end Stage
 
 /-! ### D50: the clash set is per field -/
@@ -240,7 +308,7 @@ def C34_full_statement : Prop :=
 private def wA : FileObj := ⟨1, "File".toList, ["/n1/f.txt".toList], 10⟩
 private def wB : FileObj := ⟨2, "File".toList, ["/n2/f.txt".toList], 20⟩
 private def wEx : List Path := ["/n1/f.txt".toList, "/n2/f.txt".toList]
-private def wField (nm : String) (v : Val) : Field := ⟨nm.toList, true, true, Mode.copyOnly, 0, v⟩
+private def wField (nm : String) (v : Val) : Field := ⟨nm.toList, .file "File".toList, true, Mode.copyOnly, 0, v⟩
 
 /-- **Witness (D50).**  Two fields `x: File`, `y: File` with `copy_mode=copy`, holding `n1/f.txt` and `n2/f.txt`:
     the first is staged as `job/f.txt`; the second call starts with an empty clash set, finds `job/f.txt` existing and
@@ -281,10 +349,18 @@ theorem C34_full_fails : ¬ C34_full_statement := by
     the counter-suffix primitive (which meets the contract: `copyOneRef_contract`), under each basic copy mode. -/
 example : ∀ md ∈ [Mode.copyOnly, Mode.hardlink, Mode.symlink, Mode.any],
     (match stageInputs copyOneRef Mount.getMountComp [] "/job".toList Mode.any
-        [⟨"y".toList, true, true, md, 0, .node 5 .list [.file wA, .node 6 .dict [.atom "'k'".toList, .file wB], .file wA]⟩,
-         ⟨"n".toList, false, true, md, 0, .atom "3".toList⟩] wEx 0 with
+        [⟨"y".toList, .seq [.union [.atom "Any".toList, .file "FileSet".toList]] false, true, md, 0, .node 5 .list [.file wA, .node 6 .dict [.atom "'k'".toList, .file wB], .file wA]⟩,
+         ⟨"n".toList, .atom "int".toList, true, md, 0, .atom "3".toList⟩] wEx 0 with
       | .error _ => false | .ok r => r.fields.length == 2) = true := by
   decide +kernel
+
+/-- The gate on the shapes a first-argument-only check would miss, and on types that mention no file class. -/
+example :
+    containsType (.seq [.atom "int".toList, .file "File".toList] false) = true                                  -- tuple[int, File]
+    ∧ containsType (.seq [.seq [.atom "str".toList, .file "File".toList] false] false) = true                   -- list[tuple[str, File]]
+    ∧ containsType (.mapping (.atom "str".toList) (.union [.atom "None".toList, .seq [.file "File".toList] true])) = true
+    ∧ containsType (.seq [.atom "Any".toList] false) = false                                                     -- list[Any]
+    ∧ containsType (.atom "list".toList) = false := by decide
 
 /-- Non-vacuity of the mount hypotheses: `/mnt/c` is a CIFS mount, the job directory is not under it. -/
 example : (reduceSupported Mount.getMountComp [("/mnt/c".toList, "cifs".toList)] "/job".toList ["/mnt/c/f.txt".toList]
